@@ -1281,6 +1281,9 @@ class _MethodRun:
             if isinstance(e.ctx, ast.Load) and e.id in st[2]:
                 self.flag("R2", e.lineno, f"local '{e.id}' aliases cache content read before a yield and is used after it "
                                           f"without being re-read")
+            elif isinstance(e.ctx, ast.Load) and e.id in self.tainted and "mut" in st[0] and not self.exempt:
+                self.flag("R1", e.lineno, f"local '{e.id}' aliases cache content and is used after an operation that may "
+                                          f"change gates / parameters / state, without re-validation")
             return st
         if isinstance(e, ast.Constant):
             return st
@@ -1648,6 +1651,7 @@ def r5_uncovered(fi, line, key_node, value_node, recv):
 # ---------------------------------------------------------------------------------------------------------------------
 
 def _exec_replay(script):
+    """run a replay script natively; the script sets `observed` (dict) and `reproduced` (bool)"""
     ns = {}
     try:
         import warnings
@@ -1655,11 +1659,11 @@ def _exec_replay(script):
             warnings.simplefilter("ignore")
             with _budget(60):
                 exec(script, ns)
-        return ns.get("observed")
+        return ns.get("observed"), bool(ns.get("reproduced"))
     except _Timeout:
-        return dict(error="replay timed out")
+        return dict(error="replay timed out"), False
     except Exception as e:
-        return dict(error=f"{type(e).__name__}: {e}"[:300])
+        return dict(error=f"{type(e).__name__}: {e}"[:300]), False
 
 
 def replay_generator(cls_names, meth, params):
@@ -1683,18 +1687,16 @@ def replay_generator(cls_names, meth, params):
             "rest = list(it)\n"
             f"fresh = list(circ.{meth}(30, seed=1{extra}))\n"
             "observed = dict(first=first, remaining=len(rest), remaining_with_qubit0_equal_0=sum(s[0] == '0' for s in rest),\n"
-            "                fresh_generator_with_qubit0_equal_0=sum(s[0] == '0' for s in fresh), examples=rest[:4])\n")
-        ob = _exec_replay(script)
-        rec = dict(cls=cn, script=script, observed=ob)
-        if isinstance(ob, dict) and "error" not in ob:
-            rec["reproduced"] = ob["remaining_with_qubit0_equal_0"] > 0 and ob["fresh_generator_with_qubit0_equal_0"] == 0
-            rec["expected"] = "no sample drawn after the X gate starts with '0' (probability 0 for the gates applied so far)"
-            if out is None or (rec["reproduced"] and not out.get("reproduced")):
-                out = rec
-            if rec["reproduced"]:
-                break
-        elif out is None:
+            "                fresh_generator_with_qubit0_equal_0=sum(s[0] == '0' for s in fresh), examples=rest[:4])\n"
+            "# expected: no sample drawn after the X gate starts with '0' (probability 0 for the gates applied so far)\n"
+            "reproduced = observed['remaining_with_qubit0_equal_0'] > 0 and observed['fresh_generator_with_qubit0_equal_0'] == 0\n")
+        ob, rep = _exec_replay(script)
+        rec = dict(cls=cn, script=script, observed=ob, reproduced=rep,
+                   expected="no sample drawn after the X gate starts with '0' (probability 0 for the gates applied so far)")
+        if out is None or (rep and not out.get("reproduced")):
             out = rec
+        if rep:
+            break
     return out
 
 
@@ -1710,15 +1712,43 @@ def replay_copy(cls_names):
             "    observed = dict(samples=list(c2.sample(20, seed=1, group_size=1)))\n"
             "except Exception as e:\n"
             "    observed = dict(exception=f'{type(e).__name__}: {e}', copy_has_size_field=hasattr(c2, '_marginal_storage_size'),\n"
-            "                    copy_stamp=c2._sample_n_gates, copy_num_gates=c2.num_gates)\n")
-        ob = _exec_replay(script)
-        rec = dict(cls=cn, script=script, observed=ob,
-                   reproduced=isinstance(ob, dict) and "exception" in ob and "AttributeError" in ob["exception"])
-        if out is None or rec["reproduced"]:
+            "                    copy_stamp=c2._sample_n_gates, copy_num_gates=c2.num_gates)\n"
+            "reproduced = 'AttributeError' in observed.get('exception', '')\n")
+        ob, rep = _exec_replay(script)
+        rec = dict(cls=cn, script=script, observed=ob, reproduced=rep,
+                   expected="sampling a copy works like sampling the original")
+        if out is None or rep:
             out = rec
-        if rec["reproduced"]:
+        if rep:
             break
     return out
+
+
+class NativeReplayHook:
+    """lets vf.framework.write_replay_ob re-run, in an isolated process, the native replay script attached to the model
+    of a failed provider obligation (registered in pyvc.REGISTRY under the obligation's function id at run time only;
+    it is not an E1 contract and is never verified)"""
+
+    def __init__(self, target):
+        self.target = target
+        self.bounded = ()
+
+    def replay(self, model):
+        nr = (model or {}).get("native_replay") if isinstance(model, dict) else None
+        if not nr or not nr.get("script"):
+            return dict(reproduced=False, note="no native replay attached to this obligation")
+        ob, rep = _exec_replay(nr["script"])
+        return dict(script=nr["script"], observed=ob, reproduced=rep, expected=nr.get("expected"))
+
+
+def _register_replay_hooks(obs):
+    try:
+        from vf import pyvc
+    except Exception:
+        return
+    for o in obs:
+        if o.status == "failed" and isinstance(o.model, dict) and o.model.get("native_replay") and o.function:
+            pyvc.REGISTRY.setdefault(o.function, NativeReplayHook(o.function))
 
 
 # ---------------------------------------------------------------------------------------------------------------------
@@ -1840,8 +1870,14 @@ def provider_cache(tier="quick", root=None, replays=True):
     table = []
     for c in h.circuit_classes:
         for fi in c.methods.values():
-            ctxs = h.subclasses_inheriting(fi)
-            table.append((c, fi, ctxs, {k.name: an.summary(k, fi) for k in ctxs}))
+            try:
+                ctxs = h.subclasses_inheriting(fi)
+                table.append((c, fi, ctxs, {k.name: an.summary(k, fi) for k in ctxs}))
+            except Exception as e:  # construct the analysis does not understand: undecided, never a violation
+                import traceback
+                obs.append(ObResult(f"{c.rel}::{fi.qual}::cache-analysis", "typestate", "unknown", "ast", 0.0,
+                                    function=f"{c.rel}::{fi.qual}", engine="E4", line=fi.node.lineno,
+                                    detail=f"{type(e).__name__}: {e} | {traceback.format_exc()[-400:]}"))
     _leaf_obligations(h, an, obs)
     importable = set()
     try:
@@ -1987,6 +2023,46 @@ def provider_cache(tier="quick", root=None, replays=True):
         if not emitted:
             obs.append(ObResult(f"{fid}::cache-frame", "typestate", "discharged", "ast", 0.0, function=fid, engine="E4",
                                 line=fi.node.lineno, detail=common))
+    # nobody outside the methods of the hierarchy touches the cache fields (module-level helpers, other classes, other
+    # modules of the package): otherwise the per-method rules would not cover every access
+    outside = []
+    circ_methods = {id(fi.node) for c in h.circuit_classes for fi in c.methods.values()}
+    pkg = os.path.join(h.root, "quimb")
+    for dp, dn, fns in os.walk(pkg):
+        dn[:] = [d for d in dn if d != "__pycache__"]
+        for fn in fns:
+            if not fn.endswith(".py"):
+                continue
+            path = os.path.join(dp, fn)
+            try:
+                txt = open(path).read()
+            except OSError:
+                continue
+            if not any(f in txt for f in an.cache_fields):
+                continue
+            rel = os.path.relpath(path, h.root)
+            try:
+                tree = ast.parse(txt)
+            except SyntaxError:
+                outside.append(f"{rel}: unparsable")
+                continue
+            covered = set()
+            for n in ast.walk(tree):
+                if isinstance(n, ast.ClassDef) and n.name in h.classes and h.classes[n.name] in h.circuit_classes \
+                        and h.classes[n.name].rel == rel:
+                    for m in n.body:
+                        if isinstance(m, (ast.FunctionDef, ast.AsyncFunctionDef)):
+                            covered |= {id(x) for x in ast.walk(m)}
+            for n in ast.walk(tree):
+                if isinstance(n, ast.Attribute) and n.attr in an.cache_fields and id(n) not in covered:
+                    outside.append(f"{rel}:{n.lineno}: {ast.unparse(n)}")
+                if isinstance(n, ast.Constant) and isinstance(n.value, str) and n.value in an.cache_fields \
+                        and id(n) not in covered:
+                    outside.append(f"{rel}:{n.lineno}: string {n.value!r}")
+    obs.append(ObResult(f"{CIRC}::cache-census-no-access-outside-the-hierarchy", "typestate",
+                        "failed" if outside else "discharged", "ast", 0.0, function=CIRC, engine="E4",
+                        detail=dict(scanned=os.path.relpath(pkg, h.root), fields=sorted(an.cache_fields)),
+                        model=dict(accesses_outside=outside[:20]) if outside else None))
     # census / vacuity guard
     ok = n_access >= 8 and n_gen >= 4 and len(h.circuit_classes) >= 4 and set(DECLARED_CACHE_FIELDS) <= an.cache_fields
     obs.append(ObResult(f"{CIRC}::cache-census", "typestate", "discharged" if ok else "unknown", "ast",
@@ -2000,6 +2076,8 @@ def provider_cache(tier="quick", root=None, replays=True):
     for o in obs:
         if o.solver_s == 0.0:
             o.solver_s = per
+    if replays:
+        _register_replay_hooks(obs)
     return obs
 
 
